@@ -5,6 +5,7 @@
 #![allow(unused_mut)]
 
 pub mod engine;
+pub mod interpose;
 pub mod tape;
 
 pub mod common;
@@ -21,6 +22,10 @@ pub mod p09_bitmap;
 pub mod p10_maps;
 pub mod p13_io_twins;
 pub mod p14_faults;
+pub mod p12_lifetime;
+pub mod progs;
+pub mod p15_construct;
+pub mod xen_emul;
 pub mod p19_address;
 pub mod p20_endian;
 
@@ -37,8 +42,10 @@ pub fn properties() -> Vec<Property> {
         p07_nocrash::property(),
         p09_bitmap::property(),
         p10_maps::property(),
+        p12_lifetime::property(),
         p13_io_twins::property(),
         p14_faults::property(),
+        p15_construct::property(),
         p05_p16_dirty::property_c16(),
         p19_address::property(),
         p20_endian::property(),
